@@ -22,7 +22,7 @@ Section Suggest.
 
   Inductive sres :=
   | SErr                                   (* an error is returned *)
-  | SPanic                                 (* nil pointer dereference *)
+  | SPanic                                 (* nil pointer dereference (observable only; the model never yields it) *)
   | SKeep                                  (* req returned unchanged *)
   | SNew (v : V).                          (* req.Version = v.String() *)
 
@@ -44,16 +44,14 @@ Section Suggest.
   Definition below_new (v : V) (nr : option V) : bool :=
     match nr with None => false | Some n => is_lt (cmp v n) end.
 
-  (* the loop computing newReq; the outer None is the panic of v.Difference(nil) *)
-  Fixpoint pick (l : level) (cur : option V) (vs : list V) (nr : option V) : option (option V) :=
+  (* the loop computing newReq: versions below the running maximum or below the current version are
+     skipped, then the level check against the current version *)
+  Fixpoint pick (l : level) (cur : V) (vs : list V) (nr : option V) : option V :=
     match vs with
-    | [] => Some nr
+    | [] => nr
     | v :: vs' =>
-        if below_new v nr then pick l cur vs' nr
-        else match cur with
-             | None => None
-             | Some c => if allows l (dif v c) then pick l cur vs' (Some v) else pick l cur vs' nr
-             end
+        if below_new v nr || is_lt (cmp v cur) then pick l cur vs' nr
+        else if allows l (dif v cur) then pick l cur vs' (Some v) else pick l cur vs' nr
     end.
 
   Definition current_of (c : constr) (vs : list V) : option V :=
@@ -63,21 +61,26 @@ Section Suggest.
     | CRange m => guess_current m (semvers vs) None
     end.
 
-  (* suggestMavenVersion; verr = cl.Versions returned an error *)
+  (* suggestMavenVersion; verr = cl.Versions returned an error. Without a current version (a range no
+     known version matches) or without a candidate the requirement is returned unchanged. *)
   Definition suggest_maven_version (verr : bool) (l : level) (c : constr) (vs : list V) : sres :=
     if verr then SErr else
     match c with
     | CBad => SErr
     | CSimple None => SErr
     | CSimple (Some cur) =>
-        match pick l (Some cur) (semvers vs) None with
-        | Some (Some v) => SNew v
-        | _ => SPanic                        (* newReq.String() on nil *)
+        match pick l cur (semvers vs) None with
+        | Some v => SNew v
+        | None => SKeep
         end
     | CRange m =>
-        match pick l (guess_current m (semvers vs) None) (semvers vs) None with
-        | Some (Some v) => if m v then SKeep else SNew v
-        | _ => SPanic                        (* Difference(nil) or MatchVersion(nil) *)
+        match guess_current m (semvers vs) None with
+        | None => SKeep
+        | Some cur =>
+            match pick l cur (semvers vs) None with
+            | Some v => if m v then SKeep else SNew v
+            | None => SKeep
+            end
         end
     end.
 End Suggest.
